@@ -178,6 +178,11 @@ impl<'tcx> Cx<'tcx> {
                 })
             }
             ConstValue::Indirect { alloc_id, offset } => {
+                // a constant table `[T; n]` (elements &str / &[u8] / scalars / tuples of those): {"list":[..]}
+                if let TyKind::Array(elem, n) = ty.kind() {
+                    let n = n.try_to_target_usize(tcx)? as usize;
+                    return self.render_array(alloc_id, offset.bytes() as usize, *elem, n);
+                }
                 // a wide pointer (&[u8] / &str) stored in memory: (ptr, len)
                 let inner = ty.builtin_deref(true)?;
                 let is_bytes = match inner.kind() {
@@ -197,6 +202,73 @@ impl<'tcx> Cx<'tcx> {
                 let prov = alloc.provenance().ptrs().iter().find(|(o, _)| o.bytes() as usize == base).map(|(_, p)| *p)?;
                 self.read_alloc(prov.alloc_id(), poff, len).map(|b| Self::bytes_json(&b))
             }
+        }
+    }
+
+    /// The elements of a constant array stored in allocation `id` at `base`.
+    fn render_array(&self, id: rustc_middle::mir::interpret::AllocId, base: usize, elem: Ty<'tcx>, n: usize) -> Option<String> {
+        if n > 256 {
+            return None;
+        }
+        let tcx = self.tcx;
+        let lay = tcx.layout_of(ty::TypingEnv::fully_monomorphized().as_query_input(elem)).ok()?;
+        let stride = lay.size.bytes() as usize;
+        let mut out = Vec::new();
+        for i in 0..n {
+            out.push(self.render_in_memory(id, base + i * stride, elem).unwrap_or_else(|| "null".to_string()));
+        }
+        Some(format!("{{\"list\":[{}]}}", out.join(",")))
+    }
+
+    /// One value of type `ty` stored in allocation `id` at byte offset `off`: &str / &[u8] wide pointers, integers, bool,
+    /// char, and tuples / arrays of those.
+    fn render_in_memory(&self, id: rustc_middle::mir::interpret::AllocId, off: usize, ty: Ty<'tcx>) -> Option<String> {
+        let tcx = self.tcx;
+        let rustc_middle::mir::interpret::GlobalAlloc::Memory(alloc) = tcx.global_alloc(id) else { return None };
+        let alloc = alloc.inner();
+        match ty.kind() {
+            TyKind::Ref(_, inner, _) => {
+                let is_bytes = match inner.kind() {
+                    TyKind::Str => true,
+                    TyKind::Slice(e) => matches!(e.kind(), TyKind::Uint(ty::UintTy::U8)),
+                    _ => false,
+                };
+                if !is_bytes || off + 16 > alloc.len() {
+                    return None;
+                }
+                let raw = alloc.inspect_with_uninit_and_ptr_outside_interpreter(off..off + 16);
+                let poff = u64::from_le_bytes(raw[0..8].try_into().ok()?) as usize;
+                let len = u64::from_le_bytes(raw[8..16].try_into().ok()?) as usize;
+                let prov = alloc.provenance().ptrs().iter().find(|(o, _)| o.bytes() as usize == off).map(|(_, p)| *p)?;
+                self.read_alloc(prov.alloc_id(), poff, len).map(|b| Self::bytes_json(&b))
+            }
+            TyKind::Int(_) | TyKind::Uint(_) | TyKind::Bool | TyKind::Char => {
+                let lay = tcx.layout_of(ty::TypingEnv::fully_monomorphized().as_query_input(ty)).ok()?;
+                let sz = lay.size.bytes() as usize;
+                if sz == 0 || sz > 16 || off + sz > alloc.len() {
+                    return None;
+                }
+                let raw = alloc.inspect_with_uninit_and_ptr_outside_interpreter(off..off + sz);
+                let mut v: u128 = 0;
+                for (k, b) in raw.iter().enumerate() {
+                    v |= (*b as u128) << (8 * k);
+                }
+                Some(format!("{{\"int\":{},\"bytes\":{}}}", v, sz))
+            }
+            TyKind::Tuple(fields) => {
+                let lay = tcx.layout_of(ty::TypingEnv::fully_monomorphized().as_query_input(ty)).ok()?;
+                let mut out = Vec::new();
+                for (k, fty) in fields.iter().enumerate() {
+                    let fo = lay.fields.offset(k).bytes() as usize;
+                    out.push(self.render_in_memory(id, off + fo, fty).unwrap_or_else(|| "null".to_string()));
+                }
+                Some(format!("{{\"tuple\":[{}]}}", out.join(",")))
+            }
+            TyKind::Array(e, n) => {
+                let n = n.try_to_target_usize(tcx)? as usize;
+                self.render_array(id, off, *e, n)
+            }
+            _ => None,
         }
     }
 
